@@ -1,6 +1,8 @@
 package e2
 
 import (
+	"bytes"
+	"encoding/json"
 	"fmt"
 	"math/big"
 	"sort"
@@ -20,17 +22,30 @@ import (
 const ruleC12Conc = "an Import racing with first writes: a source ledger with 2-5 transactions is exported; on a fresh ledger of another bucket ('initializing') the Import of that stream and 1-3 writes (a create on an asset and a destination of its own, an account metadata write, or an atomic bulk of two creates; controller chains opened before or when the writer starts) run under a drawn statement-level interleaving (uniform, sticky and preempt-before-COMMIT shapes). From the committed tables: if the Import reports success, the whole stream is stored, its logs are consecutive in commit order with no other log before or between them, and every write that went through carries larger ids (it saw the imported state); if the Import is refused, none of its logs is stored; every writer gets an answer and every write is answered with success; log ids increase in commit order; the copy's journal replayed by id equals its reads; non-trivial = >= 1 context switch while the Import or a first write holds an open transaction; distinct = by writers + schedule"
 
 // TestC12Concurrent decides the interleaving half of the property.
-func TestC12Concurrent(t *testing.T) {
-	st := stats.New("C12", "exploration", ruleC12Conc, assumePgsim, assumeSched)
+func TestC12Concurrent(t *testing.T) { runC12Concurrent(t, false, 200, 700) }
+
+// TestC12ConcurrentHTTP: the Import arrives through POST /v2/{ledger}/logs/import with a stream of 101-160 logs (the
+// handler feeds the controller while it reads the body), racing with first writes.
+func TestC12ConcurrentHTTP(t *testing.T) { runC12Concurrent(t, true, 12, 60) }
+
+func runC12Concurrent(t *testing.T, viaRoute bool, quick, thorough int) {
+	rule := ruleC12Conc
+	if viaRoute {
+		rule = "the Import is a POST /v2/{ledger}/logs/import request carrying 101-160 logs: " + ruleC12Conc
+	}
+	st := stats.New("C12", "exploration", rule, assumePgsim, assumeSched)
 	defer st.Write(t)
-	n := stats.N(200, 700)
-	st.Set("requested_checks_concurrent", n)
+	n := stats.N(quick, thorough)
+	st.Set(fmt.Sprintf("requested_checks_concurrent_route_%v", viaRoute), n)
 	stats.Check(t, n, 1212, func(rt *rapid.T) {
-		w := NewWorld(rt, st, env.Options{}, "C12")
+		w := NewWorld(rt, st, env.Options{}, "C12", "C06") // C06: the scheduler files a hang of all writers under that code
 		defer w.Close()
 		fs := GenFeatures(rt)
 		src := w.AddLedger("src", "b1", fs)
 		k := rapid.IntRange(2, 5).Draw(rt, "sourceTransactions")
+		if viaRoute {
+			k = rapid.IntRange(101, 160).Draw(rt, "sourceTransactionsLong")
+		}
 		for i := 0; i < k; i++ {
 			out := w.CreateTx(src, TxRequest{Postings: ledger.Postings{ledger.NewPosting("world", fmt.Sprintf("s:%d", i%2), "USD/2", big.NewInt(int64(10+i)))}, Metadata: map[string]string{"origin": "src"}})
 			if out.Kind != ErrNone {
@@ -59,6 +74,19 @@ func TestC12Concurrent(t *testing.T) {
 			c, err := importer()
 			if err != nil {
 				outs[0].err = err
+				return
+			}
+			if viaRoute {
+				var body bytes.Buffer
+				for _, lg := range stream {
+					b, _ := json.Marshal(lg)
+					body.Write(b)
+					body.WriteByte('\n')
+				}
+				rec := w.httpCall("POST", "/v2/dst/logs/import", body.Bytes())
+				if rec.Code/100 != 2 {
+					outs[0].err = fmt.Errorf("HTTP %d: %s", rec.Code, truncate(rec.Body.String(), 200))
+				}
 				return
 			}
 			ch := make(chan ledger.Log, len(stream))
